@@ -193,9 +193,16 @@ func init() {
 		Run: func(c *rt.Ctx) {
 			c.Cov["rule"] = "E3: every history up to the depth bound over {restart, restart+rotate(f), run-time rotate(f) for f in {0,100,1000}, mint on the active keyset, mint naming an inactive / unknown keyset, swap of the oldest unspent proof of each keyset to new outputs at inputs-fee and inputs-fee+1, swap to outputs naming an inactive / unknown keyset, mixed-keyset swaps, melt with inputs exactly sufficient and one short}, at most 4 keysets; in every state every keyset ever seen must still be listed with identical id, 60 keys and fee, ids must equal the independent NUT-02 derivation from the stored seed (m/0'/0'/idx'/i'), exactly one keyset is active and it is the last created, and ListKeysets / GetKeysetById / GetActiveKeyset / the keysets table / the GET handlers agree; the fee boundary is ceil(sum ppk of each input's own keyset / 1000)"
 			runSpecs(c, c09Specs(c.Quick()))
+			c.Cov["rule_schedules"] = "E1 (beyond the statement's sequential quantifier): a swap / a mint request overlapping a run-time keyset rotation, every interleaving at MintDB call granularity (preemption bound 2, then unbounded with state pruning); every signature handed out names the keyset the output asked for and verifies (DLEQ) under the key that keyset publishes for its amount"
+			runSchedAll(c, "C09", []string{"K1-swap-rotate", "K2-mint-rotate"}, 2)
 		},
-		Worker: bfs.Worker(c09All),
-		Replay: func(p string) int { return bfs.ReplayFile("C09", c09All, p) },
+		Worker: dispatchWorker(bfs.Worker(c09All)),
+		Replay: func(p string) int {
+			if code, ok := replaySched("C09", p); ok {
+				return code
+			}
+			return bfs.ReplayFile("C09", c09All, p)
+		},
 	})
 }
 
